@@ -105,3 +105,4 @@ Print Assumptions C06_program.
 Print Assumptions C06_program_complete.
 Print Assumptions C06_repr_scan.
 Print Assumptions C06_nonvacuous.
+Print Assumptions C06_repr_scan_nonvacuous.
